@@ -25,10 +25,7 @@ import (
 	banktypes "github.com/cosmos/cosmos-sdk/x/bank/types"
 	"github.com/cosmos/gogoproto/proto"
 	ethtypes "github.com/ethereum/go-ethereum/core/types"
-	ethante "github.com/evmos/ethermint/app/ante"
 	ethermintevm "github.com/evmos/ethermint/x/evm/types"
-
-	fxante "github.com/functionx/fx-core/v8/ante"
 
 	"fxverif/lib"
 )
@@ -126,30 +123,8 @@ func normPanic(s string) string {
 	return short(s, 70)
 }
 
-// anteChainCopy mirrors ante/handler_options.go:newCosmosAnteHandler WITHOUT the recover of NewAnteHandler.
-// It is used for one thing only: to obtain the stack of a panic that the real handler has already reported
-// (code 111222) so that the failing decorator can be named. If the copy does not panic the site stays "unattributed".
-func (h *harness) anteChainCopy() sdk.AnteHandler {
-	app := h.c.App
-	return sdk.ChainAnteDecorators(
-		ethante.RejectMessagesDecorator{},
-		fxante.NewDisableMsgDecorator(nil, app.GovKeeper),
-		authante.NewSetUpContextDecorator(),
-		fxante.NewRejectExtensionOptionsDecorator(),
-		authante.NewValidateBasicDecorator(),
-		authante.NewTxTimeoutHeightDecorator(),
-		authante.NewValidateMemoDecorator(app.AccountKeeper),
-		authante.NewConsumeGasForTxSizeDecorator(app.AccountKeeper),
-		authante.NewDeductFeeDecorator(app.AccountKeeper, app.BankKeeper, app.FeeGrantKeeper, nil),
-		fxante.NewPubKeyDecorator(app.AccountKeeper),
-		authante.NewSetPubKeyDecorator(app.AccountKeeper),
-		authante.NewValidateSigCountDecorator(app.AccountKeeper),
-		authante.NewSigGasConsumeDecorator(app.AccountKeeper, fxante.DefaultSigVerificationGasConsumer),
-		authante.NewSigVerificationDecorator(app.AccountKeeper, app.GetTxConfig().SignModeHandler()),
-		authante.NewIncrementSequenceDecorator(app.AccountKeeper),
-	)
-}
-
+// attributeAntePanic re-runs the decorator chain (assembled from the source order, antechain.go) under the harness'
+// recover on the CheckTx context to obtain the stack of a panic the real handler has swallowed.
 func (h *harness) attributeAntePanic(txBz []byte) string {
 	tx, err := h.c.App.GetTxConfig().TxDecoder()(txBz)
 	if err != nil {
@@ -157,17 +132,15 @@ func (h *harness) attributeAntePanic(txBz []byte) string {
 	}
 	ctx, _ := h.c.App.GetContextForCheckTx(txBz).CacheContext()
 	if hasExt, ok := tx.(authante.HasExtensionOptionsTx); ok && len(hasExt.GetExtensionOptions()) > 0 {
-		// ethereum route: only the fx-core owned decorator can be re-run in isolation
-		next := func(ctx sdk.Context, _ sdk.Tx, _ bool) (sdk.Context, error) { return ctx, nil }
-		if o := guard(func() error {
-			_, err := fxante.NewEthPubKeyDecorator(h.c.App.AccountKeeper).AnteHandle(ctx, tx, false, next)
-			return err
-		}); o.Class == "panic" {
+		if hasExt.GetExtensionOptions()[0].GetTypeUrl() != "/ethermint.evm.v1.ExtensionOptionsEthereumTx" {
+			return ""
+		}
+		if o := guard(func() error { return h.ethChainRun(ctx, tx) }); o.Class == "panic" {
 			return o.Site
 		}
 		return ""
 	}
-	if o := guard(func() error { _, err := h.anteChainCopy()(ctx, tx, false); return err }); o.Class == "panic" {
+	if o := guard(func() error { _, err := h.cosmosChain()(ctx, tx, false); return err }); o.Class == "panic" {
 		return o.Site
 	}
 	return ""
